@@ -45,6 +45,54 @@ def batchings(items, rng, limit):
     return out
 
 
+def thread_probe(ck, tier, rng, keys, scratch):
+    from skepticoin import blockstore
+    import threading
+    # ---- a block buffered by the miner thread while the network thread is flushing must not be lost
+    import threading
+    for probe in range(2 if tier == 'quick' else 6):
+        with chaingen.Env(period=50) as env:
+            tg = chaingen.TreeGen(env, keys, rng)
+            tg.grow(3, fork_p=0.0)
+            a, b, c = tg.nodes[1:4]
+            path = os.path.join(scratch, 'c08-thr-%d.db' % probe)
+            with contextlib.redirect_stdout(io.StringIO()):
+                st = blockstore.BlockStore(path)
+            in_write, b_done = threading.Event(), threading.Event()
+            orig = st.write_blocks_to_disk
+
+            def slow_write(blocks, _o=orig):
+                blocks = list(blocks)
+                in_write.set()
+                b_done.wait(0.4)          # give the other thread the chance to get in (it must not, or must not be lost)
+                return _o(blocks)
+            st.write_blocks_to_disk = slow_write
+            st.add_block_to_buffer(a.block)
+            st.add_block_to_buffer(b.block)
+
+            def other():
+                in_write.wait(2)
+                st.add_block_to_buffer(c.block)
+                b_done.set()
+            t1 = threading.Thread(target=st.flush_blocks_to_disk)
+            t2 = threading.Thread(target=other)
+            t1.start(); t2.start(); t1.join(5); t2.join(5)
+            st.write_blocks_to_disk = orig
+            try:
+                st.flush_blocks_to_disk()
+                rows = set(bytes(x[0]) for x in st.connection.execute('select block_hash from chain'))
+            except Exception as e:
+                rows = set()
+                ck.violation('flush-after-concurrent-add-raises', 'flush after a concurrent add raised %s' % type(e).__name__, {'probe': probe})
+            st.close()
+            os.unlink(path)
+            ck.case(('thread', probe), kind='concurrent-add-during-flush')
+            if not {a.id, b.id, c.id} <= rows:
+                ck.violation('block-buffered-during-flush-lost', 'a block added to the write buffer by another thread while a '
+                             'flush was writing is never written (%d of 3 blocks stored)' % len({a.id, b.id, c.id} & rows),
+                             {'probe': probe, 'schedule': 'flush(A,B) writing | add_block_to_buffer(C) | flush'})
+
+
 def run(tier, seed):
     ck = common.Check('C08', tier, seed)
     ck.rule = ('block trees with multi-input/multi-output transactions and forks; shapes: no shared transactions, the same '
@@ -86,6 +134,9 @@ def run(tier, seed):
                     tg.nodes.append(chaingen.Node(blk, tip, spec.apply_block(tip.utxo, spec.BlockView(blk))))
             else:
                 tg.grow(2, fork_p=0.5)
+                # unusual but valid reward transactions: no outputs at all; a zero-valued output
+                t1 = tg.extend(max(tg.nodes, key=lambda x: x.height), txs=[], fees=0, strip_reward=True)
+                tg.extend(t1, txs=[], fees=0, zero_outputs=[keys.pks[3]])
             nodes = tg.nodes[1:]          # genesis is written by the store itself
             all_tx = {}
             shared = False
@@ -127,7 +178,15 @@ def run(tier, seed):
                         ok = False
                         ck.violation('store-write-raises', 'writing parent-first accepted blocks raised %s: %s' % (type(e).__name__, e),
                                      {'trial': trial, 'shape': shape, 'batching': [len(b) for b in batches]})
-                    back = list(st.read_blocks_from_disk()) if ok else []
+                    try:
+                        back = list(st.read_blocks_from_disk()) if ok else []
+                    except Exception as e:
+                        back = []
+                        ok = False
+                        ck.violation('store-read-raises', 'reading back a store of %d parent-first written valid blocks raised '
+                                     '%s' % (len(tg.nodes), type(e).__name__),
+                                     {'trial': trial, 'shape': shape, 'batching': [len(b) for b in batches],
+                                      'blocks': [nd.block.serialize().hex() for nd in tg.nodes]})
                     ops.append([3])
                     # rebuilt chain state
                     old = blockstore.DefaultBlockStore.instance
@@ -217,49 +276,19 @@ def run(tier, seed):
                 if any(nd.parent is not None and pos[nd.parent.id] > pos[nd.id] for nd in tg.nodes):
                     ck.violation('store-does-not-return-what-was-written', 'the large store returns a child before its parent',
                                  {'large': True, 'heights': H, 'probe': probe, 'seed': seed})
-    # ---- a block buffered by the miner thread while the network thread is flushing must not be lost
-    import threading
-    for probe in range(2 if tier == 'quick' else 6):
-        with chaingen.Env(period=50) as env:
-            tg = chaingen.TreeGen(env, keys, rng)
-            tg.grow(3, fork_p=0.0)
-            a, b, c = tg.nodes[1:4]
-            path = os.path.join(scratch, 'c08-thr-%d.db' % probe)
-            with contextlib.redirect_stdout(io.StringIO()):
-                st = blockstore.BlockStore(path)
-            in_write, b_done = threading.Event(), threading.Event()
-            orig = st.write_blocks_to_disk
-
-            def slow_write(blocks, _o=orig):
-                blocks = list(blocks)
-                in_write.set()
-                b_done.wait(0.4)          # give the other thread the chance to get in (it must not, or must not be lost)
-                return _o(blocks)
-            st.write_blocks_to_disk = slow_write
-            st.add_block_to_buffer(a.block)
-            st.add_block_to_buffer(b.block)
-
-            def other():
-                in_write.wait(2)
-                st.add_block_to_buffer(c.block)
-                b_done.set()
-            t1 = threading.Thread(target=st.flush_blocks_to_disk)
-            t2 = threading.Thread(target=other)
-            t1.start(); t2.start(); t1.join(5); t2.join(5)
-            st.write_blocks_to_disk = orig
-            try:
-                st.flush_blocks_to_disk()
-                rows = set(bytes(x[0]) for x in st.connection.execute('select block_hash from chain'))
-            except Exception as e:
-                rows = set()
-                ck.violation('flush-after-concurrent-add-raises', 'flush after a concurrent add raised %s' % type(e).__name__, {'probe': probe})
-            st.close()
-            os.unlink(path)
-            ck.case(('thread', probe), kind='concurrent-add-during-flush')
-            if not {a.id, b.id, c.id} <= rows:
-                ck.violation('block-buffered-during-flush-lost', 'a block added to the write buffer by another thread while a '
-                             'flush was writing is never written (%d of 3 blocks stored)' % len({a.id, b.id, c.id} & rows),
-                             {'probe': probe, 'schedule': 'flush(A,B) writing | add_block_to_buffer(C) | flush'})
+    thread_probe(ck, tier, rng, keys, scratch)
+    # ---- the store behind a node: bulk-download replies waiting in the write buffer, a rejected block, re-deliveries
+    try:
+        import check_C09
+        for tr_ in ((1, 3) if tier == 'quick' else (1, 3, 5, 7, 9, 11)):
+            check_C09.scenario(ck, tr_, tier)
+        for tr_ in range(4):
+            check_C09.rollback_scenario(ck, tr_, tier)
+    except Exception:
+        import traceback
+        tb = traceback.format_exc()
+        if 'could not mine a block' not in tb:
+            ck.disagree('node-level store scenario crashed: %s' % tb[-400:], {})
     if r.ok:
         outs = model.run_batch(reqs)
         for (want, rp), o in zip(wants, outs):
